@@ -309,3 +309,54 @@ Proof.
     destruct (IVT (fun x => - peval N p x) a b C Hab) as [z [Hz E]]; [lra|lra|].
     exists z; split; auto. lra.
 Qed.
+
+(* ------------------------------------------------------------------ *)
+(** * What the subdivision guarantees in terms of distance: the two reported
+      points lie in two intersecting boxes, so they are at most the sum of the
+      box extents apart in each coordinate.  The stopping rule bounds the AREAS
+      of the boxes, not their extents: a long thin box passes it. *)
+Lemma boxes_share_point b1 b2 : boxes_intersect N b1 b2 = true -> exists r, inbox b1 r /\ inbox b2 r.
+Proof.
+  destruct b1 as [[[x1 X1] y1] Y1], b2 as [[[x2 X2] y2] Y2].
+  intros H. destruct (boxes_intersect N (x1, X1, y1, Y1) (x2, X2, y2, Y2)) eqn:E; [|discriminate].
+  assert (NF : ~ (Rmin X1 X2 <= Rmax x1 x2 \/ Rmin Y1 Y2 <= Rmax y1 y2)).
+  { intros D. apply (proj2 (boxes_intersect_false (x1, X1, y1, Y1) (x2, X2, y2, Y2))) in D. congruence. }
+  exists (Rmax x1 x2, Rmax y1 y2). cbn [inbox re im fst snd].
+  assert (A : Rmax x1 x2 < Rmin X1 X2) by (destruct (Rlt_dec (Rmax x1 x2) (Rmin X1 X2)); [assumption|exfalso; apply NF; left; lra]).
+  assert (B : Rmax y1 y2 < Rmin Y1 Y2) by (destruct (Rlt_dec (Rmax y1 y2) (Rmin Y1 Y2)); [assumption|exfalso; apply NF; right; lra]).
+  pose proof (Rmax_l x1 x2). pose proof (Rmax_r x1 x2). pose proof (Rmin_l X1 X2). pose proof (Rmin_r X1 X2).
+  pose proof (Rmax_l y1 y2). pose proof (Rmax_r y1 y2). pose proof (Rmin_l Y1 Y2). pose proof (Rmin_r Y1 Y2).
+  repeat split; lra.
+Qed.
+
+Theorem subdiv_distance_partial bbox tol tol_deC bez1 bez2 maxits res :
+  deg23 bez1 -> deg23 bez2 ->
+  (forall b s, deg23 b -> 0 <= s <= 1 -> inbox (bbox b) (bezier_point N b s)) ->   (* C08: boxes contain the curves *)
+  bezier_intersections N bbox tol tol_deC bez1 maxits bez2 = IOk res ->
+  forall t1 t2, In (t1, t2) res ->
+  exists b1 b2,
+    let '(x1, X1, y1, Y1) := bbox b1 in
+    let '(x2, X2, y2, Y2) := bbox b2 in
+    Rabs (re (bezier_point N bez1 t1) - re (bezier_point N bez2 t2)) <= (X1 - x1) + (X2 - x2)
+    /\ Rabs (im (bezier_point N bez1 t1) - im (bezier_point N bez2 t2)) <= (Y1 - y1) + (Y2 - y2)
+    /\ (X1 - x1) * (Y1 - y1) < tol_deC /\ (X2 - x2) * (Y2 - y2) < tol_deC.
+Proof.
+  intros D1 D2 Hbox H t1 t2 Hin.
+  destruct (subdiv_witness N bbox tol tol_deC bez1 bez2 maxits res H (t1, t2) Hin)
+    as (b1 & b2 & k & S1 & S2 & Hi & A1 & A2).
+  cbn [fst snd] in *.
+  destruct (sub_of_param N NumR_ok bez1 b1 t1 k D1 S1) as [Db1 _].
+  destruct (sub_of_param N NumR_ok bez2 b2 t2 k D2 S2) as [Db2 _].
+  pose proof (sub_of_centre N NumR_ok bez1 b1 t1 k D1 S1) as C1.
+  pose proof (sub_of_centre N NumR_ok bez2 b2 t2 k D2 S2) as C2.
+  assert (Hh : 0 <= half N <= 1) by (rewrite half_R; lra).
+  pose proof (Hbox b1 (half N) Db1 Hh) as P1. pose proof (Hbox b2 (half N) Db2 Hh) as P2.
+  rewrite C1 in P1. rewrite C2 in P2.
+  destruct (boxes_share_point _ _ Hi) as [r [R1 R2]].
+  exists b1, b2.
+  destruct (bbox b1) as [[[x1 X1] y1] Y1], (bbox b2) as [[[x2 X2] y2] Y2].
+  cbn [inbox box_area] in *. cbn [ltb mul sub NumR] in A1, A2.
+  apply Rlt_b_true in A1. apply Rlt_b_true in A2.
+  destruct P1 as [[? ?] [? ?]], P2 as [[? ?] [? ?]], R1 as [[? ?] [? ?]], R2 as [[? ?] [? ?]].
+  repeat split; try assumption; apply Rabs_le; lra.
+Qed.
